@@ -176,6 +176,7 @@ pub struct Ctx {
     selftest: Value,
     pub quiet: bool,
     notes: BTreeMap<String, Vec<Value>>,
+    fallback_samples: Vec<Value>,
 }
 
 impl Ctx {
@@ -206,6 +207,7 @@ impl Ctx {
             selftest: Value::Null,
             quiet: false,
             notes: BTreeMap::new(),
+            fallback_samples: Vec::new(),
         }
     }
 
@@ -230,6 +232,7 @@ impl Ctx {
             selftest: Value::Null,
             quiet: true,
             notes: BTreeMap::new(),
+            fallback_samples: Vec::new(),
         }
     }
 
@@ -264,6 +267,11 @@ impl Ctx {
     /// like `item`, and additionally leaves the complete input next to the journal, so that the
     /// driver can attach it to a "process died / hung" violation
     pub fn item_bytes(&mut self, label: &str, d: &[u8]) {
+        if self.fallback_samples.len() < 2 && self.sample_cap > 0 {
+            // whatever the library does with it, this input was part of the run
+            self.fallback_samples
+                .push(json!({"input": hex_prefix(d, 32), "len": d.len(), "how": label, "note": "first inputs of this worker"}));
+        }
         if self.fine {
             let p = format!("{}.item", self.journal_path_hint());
             let _ = std::fs::write(&p, d);
@@ -368,6 +376,9 @@ impl Ctx {
             buf.extend_from_slice(&h.to_le_bytes());
         }
         let _ = std::fs::write(&hashes_path, &buf);
+        if self.samples.is_empty() {
+            self.samples = self.fallback_samples.clone();
+        }
         let s = json!({
             "counters": self.counters,
             "samples": self.samples,
